@@ -109,8 +109,36 @@ def main(pid, modname, tier, replay_path=None):
     jobs = [jobs[i] for i in order]
     nproc = min(int(os.environ.get('VERIF_JOBS', '16')), max(1, len(jobs)))
     ctx = mp.get_context('fork')
-    with ctx.Pool(nproc, initializer=_init, initargs=(modname,)) as pool:
-        recs = pool.map(_work, jobs, chunksize=1)
+    # Results are collected as they arrive.  Once a case has produced a solver counterexample that is not one of the recorded known
+    # findings, the cases still running get a grace period and are then abandoned: the run is going to report a violation (or a
+    # non-reproducing counterexample) anyway, and waiting for solver time-outs of the other cases only delays that report.
+    grace = float(os.environ.get('VERIF_GRACE_S', '120'))
+    recs, deadline, stopped_early = [], None, 0
+    pool = ctx.Pool(nproc, initializer=_init, initargs=(modname,))
+    try:
+        it = pool.imap_unordered(_work, jobs, chunksize=1)
+        while len(recs) < len(jobs):
+            try:
+                r = it.next(timeout=2.0)
+            except mp.TimeoutError:
+                if deadline is not None and time.time() > deadline:
+                    break
+                continue
+            recs.append(r)
+            if deadline is None:
+                for f in r.get('failures', []):
+                    if f.get('verdict') == 'sat' and not (hasattr(mod, 'classify') and mod.classify(r['case'], f['label'], f['values'])):
+                        deadline = time.time() + grace
+                        break
+    finally:
+        pool.terminate()
+        pool.join()
+    done = {r['idx'] for r in recs}
+    for (i, c, _o) in jobs:
+        if i not in done:
+            stopped_early += 1
+            recs.append(dict(idx=i, case=c, paths=0, aborted=0, queries=0, solver_s=0.0, unknown=0, obligations=0, discharged=0, failures=[],
+                             reached={}, labels={}, truncated=False, decisions=0, witnesses=[], errors=[], wall_s=None, abandoned=True))
     recs.sort(key=lambda r: r['idx'])
     if os.environ.get('VERIF_VERBOSE'):
         for r in recs:
@@ -223,6 +251,8 @@ def main(pid, modname, tier, replay_path=None):
         problems.append(f"vacuity: tags never reached: {vacuous}")
     if truncated:
         problems.append(f"{truncated} case explorations truncated by the path/time cap (bound not exhausted)")
+    if stopped_early:
+        problems.append(f"{stopped_early} cases abandoned {grace:.0f} s after the first counterexample was found (their results would not change the verdict)")
     if tot['paths'] == 0 and not any(c.get('_kind') for c in cases):
         problems.append("no path completed")
     if problems and status == EXIT_OK:
